@@ -191,9 +191,15 @@ def run(ctx):
         "trust-domain bundle without '*' / '/' entries (mesh config validation admits DNS-label trust domains only); principal values "
         "with '*', wildcard-free and '*suffix' trust-domain parts are inside migration_sem, a 'prefix*' part is finding 5, "
         "`when source.principal` values with a '*suffix' part and two or more `from` entries are tied by the differential only",
-        "CUSTOM: the external authorizer's answer is outside the statement (taken to allow for the decision); WHO is asked is "
-        "inside (ext_authz_asked_chain, oracle clause authorizer-asked); gRPC and HTTP extension providers are driven, the "
-        "ext_authz filter's service config beyond its filter_enabled_metadata matcher is not compared (only ValidateAll'ed)",
+        "CUSTOM: the external authorizer's answer is outside the statement (taken to allow for the decision); WHO is asked and WHERE "
+        "the check request goes is inside (ext_authz_asked_chain, ext_authz_targets_chain; oracle clause authorizer-asked compares "
+        "the consulted filters' targets - kind, cluster - with the mesh config's); of the ext_authz config kind, cluster, authority "
+        "/ URI host, failure mode, status on error and path prefix are modelled and compared, timeout / header lists / request body "
+        "settings must have the defaults the harness never changes (else UNEXPECTED); provider entries with config errors (port, "
+        "service lookup, status, path prefix, name, duplicates) are generated in the validator-rejected part and the corpus only",
+        "CUSTOM-first: the harness concatenates the CUSTOM builder's filters before the Local builder's, as the listener builder "
+        "does (listener.go / listener_waypoint.go); that ordering site itself is not executed - chain order beyond the two builders' "
+        "outputs is outside this check",
         "JWT: request.auth.principal is defined when iss and sub are non-empty strings; the exactness theorem for requestPrincipals "
         "additionally assumes no '/' in sub (hypothesis jwtOK, per matcher); claim values that are numbers / bools match nothing",
         "path templates: statement and model share one segment matcher (templateMatch); the Go interpreter evaluates them "
@@ -321,7 +327,7 @@ MANIFEST = {
                    "the real validator / config store / GetAuthorizationPolicies / plugin builder output and a request-level differential "
                    "through a reference RBAC interpreter."),
     "level_note": ("Trusted: Lean kernel + {propext, Classical.choice, Quot.sound}; Envoy semantics written from docs (no Envoy in sandbox); "
-                   "the hand-written model (tied by differential testing on ~4300 policy sets / ~37000 requests quick, 75000 / 620000 "
+                   "the hand-written model (tied by differential testing on ~3600 policy sets / ~26000 requests quick, 75000 / 600000 "
                    "thorough); Go reference interpreter and Go spec. Main theorems hold under decidable hypotheses evaluated on generated "
                    "cases (hypsOnB: per matcher - values inside the proved matcher scope and, only where a policy reads them, Istio-form "
                    "peer names / non-empty header values; plain trust-domain bundle, no `prefix*` trust-domain part; distinct generated "
